@@ -9,7 +9,7 @@
    the PHSF string has PHC shape) and `small_pieces` (every write that reaches the chunk sink is
    shorter than 2^32 bytes — longer writes are outside the model, as in Entry.data_chunks). *)
 From PNA Require Import Base Crc32 Name Codec Chunk Archive Entry Flatten Cbc Ctr Pipeline Wf.
-From PNA Require Import BaseFacts NameFacts CodecFacts Crc32Facts ChunkFacts ArchiveFacts EntryFacts CbcFacts
+From PNA Require Import BaseFacts NameFacts CodecFacts Crc32Facts ChunkFacts ArchiveFacts EntryFacts CbcFacts CtrFacts
   StreamFacts WfFacts WfWriterFacts WfAgreeFacts.
 Require Import ZArith ZifyN ZifyNat ZifyBool.
 Open Scope N_scope.
@@ -335,6 +335,78 @@ Theorem solid_archive_accepted cfg ctx swcuts :
 Proof.
   intros SC SM PI. rewrite solid_archive_ser.
   exact (writable_accepted (RSolid _) (streamed_solid_writable cfg ctx swcuts SC SM PI)).
+Qed.
+
+(* ---- re-creating a solid entry from file entries (SolidEntryBuilder::add_entry of each, build): the
+   writes the pipeline sees are the chunk writes of the entries; with a compressor that hands on pieces
+   shorter than 2^32 bytes the built solid entry is writable ------------------------------------------ *)
+Definition small (p : bytes) : Prop := len p < 2 ^ 32.
+
+Lemma chunk_writes_small c : wf_chunk c -> Forall small (chunk_writes c).
+Proof.
+  intros (T & D). unfold chunk_writes, small.
+  assert (len (be32 (len (cdata c))) < 2 ^ 32) as H1 by (rewrite len_be32; reflexivity).
+  assert (len (cty c) < 2 ^ 32) as H2 by (unfold len; rewrite T; reflexivity).
+  assert (len (be32 (chunk_crc c)) < 2 ^ 32) as H3 by (rewrite len_be32; reflexivity).
+  destruct (cdata c) eqn:CD; cbn [app]; repeat constructor; try assumption.
+Qed.
+
+Lemma chunks_writes_small cs : Forall wf_chunk cs -> Forall small (chunks_writes cs).
+Proof.
+  unfold chunks_writes. induction 1 as [|c cs W _ IH]; [constructor|]. cbn [map concat].
+  apply Forall_app. split; [apply chunk_writes_small; exact W|exact IH].
+Qed.
+
+Lemma solid_writes_small inner : Forall writable_normal inner -> Forall small (solid_writes inner).
+Proof.
+  intro W. unfold solid_writes. apply chunks_writes_small. apply Forall_concat. apply Forall_forall.
+  intros cs Hc. apply in_map_iff in Hc. destruct Hc as (n & <- & Hn). rewrite Forall_forall in W.
+  eapply Forall_impl; [|apply ser_normal_chunks; exact (W n Hn)]. intros c H. apply H.
+Qed.
+
+Lemma chunk_writes_concat' c : concat (chunk_writes c) = ser_chunk c.
+Proof. unfold chunk_writes, ser_chunk. destruct (cdata c); cbn [concat app]; rewrite ?app_nil_r, <- ?app_assoc; reflexivity. Qed.
+
+Lemma solid_writes_stream inner : concat (solid_writes inner) = solid_plain_stream inner.
+Proof.
+  unfold solid_writes, solid_plain_stream, chunks_writes, ser_chunks. induction (concat (map ser_normal inner)) as [|c cs IH]; [reflexivity|].
+  cbn [map concat]. rewrite concat_app, chunk_writes_concat', IH. reflexivity.
+Qed.
+
+Lemma ctrw_small (F : bytes -> bytes -> bytes) : forall ws s, Forall small ws ->
+  Forall small (concat (map snd (snd (ctrw_writes F s ws)))).
+Proof.
+  induction ws as [|d r IH]; intros s W; cbn [ctrw_writes]; [constructor|]. inversion W; subst.
+  unfold ctrw_write. destruct (ctrw_writes F _ r) as [s2 rest] eqn:R. cbn [snd map concat app].
+  constructor; [unfold small; rewrite ctr_xor_len; assumption|].
+  specialize (IH {| cw_key := cw_key s; cw_iv := cw_iv s; cw_pos := cw_pos s + len d |} H2). rewrite R in IH. exact IH.
+Qed.
+
+Lemma cwrite_small cfg ctx ws : strict_ctx ctx -> Forall small ws -> Forall small (cwrite cfg ctx ws).
+Proof.
+  intros SC W. destruct (Pipeline.encrypted cfg) eqn:EN.
+  2:{ unfold Pipeline.cwrite. unfold Pipeline.encrypted in EN. destruct (g_enc cfg); try discriminate. exact W. }
+  destruct (g_mode cfg) eqn:MD.
+  - destruct (cbc_pieces cfg ctx ws EN MD SC) as (_ & _ & _ & L). eapply Forall_impl; [|exact L].
+    intros p Hp. unfold small, len, len16 in *. rewrite Hp. reflexivity.
+  - unfold Pipeline.cwrite. rewrite MD. unfold Pipeline.encrypted in EN.
+    assert (forall a, Forall small (let (s', calls) := ctrw_writes (E a) {| cw_key := c_key ctx; cw_iv := of_be (c_iv ctx); cw_pos := 0 |} ws in
+                                    concat (map snd calls))) as G.
+    { intro a. pose proof (ctrw_small (E a) ws {| cw_key := c_key ctx; cw_iv := of_be (c_iv ctx); cw_pos := 0 |} W) as H.
+      destruct (ctrw_writes (E a) _ ws) as [s' calls]. exact H. }
+    destruct (g_enc cfg); [discriminate|apply G|apply G].
+Qed.
+
+(* the compressor hands on pieces that fit a chunk *)
+Definition compress_small : Prop := forall c lvl ws, Forall small (compress c lvl ws).
+
+Theorem rebuild_solid_writable cfg ctx extra inner : compress_small -> strict_ctx ctx -> Forall sextra_ok extra ->
+  Forall writable_normal inner -> writable_solid (build_solid cfg ctx extra (solid_writes inner)).
+Proof.
+  intros CS SC EX W. apply build_solid_writable; try assumption.
+  - unfold small_pieces, Pipeline.data_pieces. apply cwrite_small; [exact SC|].
+    unfold zwrite. destruct (g_comp cfg); try apply CS. apply solid_writes_small. exact W.
+  - intros _ _. exists inner. split; [exact W|apply solid_writes_stream].
 Qed.
 
 (* ================================================================================================= *)
